@@ -131,7 +131,7 @@ Qed.
 
 Lemma n0_nsm_ok (oc : list bclass) : length oc = k ->
   forall idxs (pc : list bclass) x, length pc = k -> incl idxs S ->
-  exists pc', n0_nsm oc pc idxs x = Ok pc' /\ fr S pc pc'.
+  exists pc', n0_nsm false oc pc idxs x = Ok pc' /\ fr S pc pc'.
 Proof.
   intros Hoc.
   induction idxs as [|j rest IH]; intros pc x Hl Hin; cbn [n0_nsm].
@@ -139,7 +139,7 @@ Proof.
   - apply incl_cons_l in Hin as [Hj Hrest].
     destruct (get_ok 408 oc j) as (o & Eo); [rewrite Hoc; auto|].
     destruct (get_ok 409 pc j) as (c & Ec); [rewrite Hl; auto|].
-    rewrite Eo, Ec; cbn [bind]. destruct ((o =c NSM) || (c =c BN)).
+    rewrite Eo, Ec; cbn [bind]. destruct ((o =c NSM) || removed_by_x9 o).
     + destruct (upd_ok 410 S pc j x) as (l1 & E1 & F1); [rewrite Hl; auto | auto |].
       rewrite E1; cbn [bind].
       destruct (IH l1 x) as (l2 & E2 & F2); [rewrite (fr_len _ _ _ F1); auto | auto |].
@@ -455,7 +455,7 @@ Proof. destruct sub; cbn [length]; [lia | reflexivity]. Qed.
 
 Lemma n0_pair_ok ecls not_e (pc : list bclass) p :
   length pc = k -> pair_ok (irs_runs sq) p ->
-  exists pc', n0_pair U32 iter_backwards_from text sq oc ecls not_e pc p = Ok pc' /\ fr S pc pc'.
+  exists pc', n0_pair U32 false iter_backwards_from text sq oc ecls not_e pc p = Ok pc' /\ fr S pc pc'.
 Proof.
   intros Hpc ((rs & Hns & Hrs) & (re & Hne & Hre) & Hlt).
   pose proof Sk as HSk.
@@ -502,7 +502,7 @@ Qed.
 
 Lemma n0_pairs_ok ecls not_e : forall pairs (pc : list bclass),
   length pc = k -> Forall (pair_ok (irs_runs sq)) pairs ->
-  exists pc', n0_pairs U32 iter_backwards_from text sq oc ecls not_e pc pairs = Ok pc' /\ fr S pc pc'.
+  exists pc', n0_pairs U32 false iter_backwards_from text sq oc ecls not_e pc pairs = Ok pc' /\ fr S pc pc'.
 Proof.
   induction pairs as [|p rest IH]; intros pc Hpc Hp; cbn [n0_pairs].
   - exists pc; split; [reflexivity | apply fr_refl].
